@@ -1,6 +1,7 @@
 import PytaskProofs.Lemmas.EngineScratch
 import PytaskProofs.Lemmas.StateExit
 import PytaskProofs.Lemmas.EngineExample
+import PytaskProofs.Lemmas.StateUPath
 /-!
 # C02 — an incremental build leaves what a from-scratch build would leave
 
@@ -318,6 +319,26 @@ theorem C02_full_false : ¬ C02_full := by
   have := scratch_functional shWF' huniq hs 6 shScratch
   rw [← Option.some.inj hv] at this
   exact absurd this (by decide)
+
+/-! ## a node kind outside M6: `UPath` with a protocol (finding F61) -/
+
+/-- What C02 needs of a node's state: different contents give different states ("never unchanged while a tracked file differs"). -/
+def C02_upath_full : Prop := ∀ f g : UFile, f.content ≠ g.content → upathState f ≠ upathState g
+
+/-- **C02_upath_full is false of the current code** (finding F61): on a file system without ETags (local `file://`, memory, ssh)
+the state is the constant `Generated.upathNoEtagState` whatever the content, so an edited file keeps its state, `RowsMatch` keeps
+holding and the consumer is reported unchanged. -/
+theorem C02_upath_full_false : ¬ C02_upath_full := by
+  intro h
+  exact h ⟨none, 1, 0⟩ ⟨none, 2, 0⟩ (by decide) rfl
+
+/-- **C02_upath_partial**: with ETags that identify contents (equal ETags only for equal contents) the state separates contents. -/
+theorem C02_upath_partial (f g : UFile) (ef eg : String) (hf : f.etag = some ef) (hg : g.etag = some eg)
+    (hinj : ef = eg → f.content = g.content) (hne : f.content ≠ g.content) : upathState f ≠ upathState g := by
+  unfold upathState
+  rw [hf, hg]
+  intro h
+  exact hne (hinj (by simpa using h))
 
 /-! ## non-vacuity (project `exP`: input 10 → task 0 → 20 → task 1 → 21, 22; see `Lemmas/EngineExample.lean`) -/
 
